@@ -154,3 +154,16 @@ Proof.
   - exfalso. destruct FM' as [(p & Hp & G) _]. exact (NM j' p Hp G).
   - reflexivity.
 Qed.
+
+(* WebSocket upgrade requests are dispatched by the same rule over the WebSocket routes; ordinary requests never see
+   the WebSocket routes and vice versa *)
+Theorem dispatch_request_spec subapps default (upgrade : bool) host uri :
+  if upgrade
+  then Routes (map ws_view subapps) (ws_view default) host uri (dispatch_request subapps default true host uri)
+  else Routes (map http_view subapps) (http_view default) host uri (dispatch_request subapps default false host uri).
+Proof. destruct upgrade; unfold dispatch_request; apply get_handler_spec. Qed.
+
+Theorem dispatch_request_tables_independent subapps subapps' default default' host uri :
+  map ws_view subapps = map ws_view subapps' -> ws_view default = ws_view default' ->
+  dispatch_request subapps default true host uri = dispatch_request subapps' default' true host uri.
+Proof. intros H1 H2. unfold dispatch_request. rewrite H1, H2. reflexivity. Qed.
